@@ -421,7 +421,7 @@ PROPS["C06"] = {
 
 PROPS["C20"] = {
     "level": "fault_enumeration",
-    "runs": [run("TestC20Early", (3000, 6), (60000, 8)), run("TestC20Faults", (3, 4), (12, 8), shrinktime="1s")],
+    "runs": [run("TestC20Early", (3000, 6), (60000, 8)), run("TestC20Faults", (3, 4), (12, 8), shrinktime="1s"), run("TestC20Reader", (400, 1), (4000, 2))],
     "cap_s": {"quick": 900, "thorough": 7200},
     "rule": "scenarios = body none / in memory / spilled to disk (written in two pieces or in one, so that the spill file is created while the buffer is empty) / larger than a small body limit and written in pieces (one of them ending "
             "exactly at the limit in half of the cases; Reject and ProcessPartial; the excess must show as an interruption, an error "
@@ -434,11 +434,13 @@ PROPS["C20"] = {
             "ENOSPC / EIO); an injection counts only if strace reports exactly one injected call, before the transaction is closed, on the "
             "same (normalised) path as recorded; oracle = no panic, the failure is visible (returned error, error variable, error-level "
             "debug log entry or interruption), no temporary file left after Close except what upload retention keeps (and the target of a "
-            "failing unlink), file descriptors back to the baseline, a following transaction on the same WAF behaves normally; "
+            "failing unlink), file descriptors back to the baseline, a following transaction on the same WAF behaves normally; (c) requests handed "
+            "over as a byte stream (ParseRequestReader) with body lines of 1..200000 bytes: either an error / interruption / error variable, or the "
+            "transaction holds every byte sent; "
             "non-trivial = at least one aligned injection (faults) / a scenario with files stopped at or after the third call (early)",
     "essential": {"all": ["body:spill", "body:multipart", "uploads", "keep:On", "keep:RelevantOnly", "interrupted", "body-over-limit:Reject",
                           "body-over-limit:ProcessPartial", "write-ends-exactly-at-limit", "core-scenario", "fault:unlinkat", "fault:openat", "fault:write", "multipart-without-announced-boundary",
-                          "spill-file-created-for-the-first-write"]},
+                          "spill-file-created-for-the-first-write", "reader-body-line-longer-than-64k", "reader-failure-surfaced", "reader-body-complete"]},
     "assumptions": COMMON_ASSUME + [
         "strace -e inject counts 'when=N' per traced thread; misaligned runs are detected after the fact and discarded (counted in coverage.extra)",
         "faults on the writability probe files (checkfsfile*) NewWAF creates are out of scope; a failed read at end of file is not a fault (no data)",
